@@ -256,7 +256,7 @@ void SZ_copymetaDataToCdArray(size_t* cd_nelmts, unsigned int *cd_values, int da
 	switch(newDim)
 	{		
 		case 1:
-			longToBytes_bigEndian(bytes, (unsigned long)r1);
+			longToBytes_bigEndian(bytes, (unsigned long)_r1);
 			(*new_cd_values)[2] = bytesToInt_bigEndian(bytes);
 			(*new_cd_values)[3] = bytesToInt_bigEndian(&bytes[4]);	
 			if(old_cd_nelmts==0)
@@ -333,8 +333,8 @@ void SZ_copymetaDataToCdArray(size_t* cd_nelmts, unsigned int *cd_values, int da
 				(*new_cd_values)[13] = old_cd_values[7];
 				(*new_cd_values)[14] = old_cd_values[8];
 				*new_cd_nelmts = 15;
-				break;
 			}
+			break;
 		default:
 			(*new_cd_values)[2] = (unsigned int) _r5;		
 			(*new_cd_values)[3] = (unsigned int) _r4;	
